@@ -4,7 +4,7 @@ SPEC = {'level': 'exploration',
                  'regtest (halving interval 150), base of 104..148 empty blocks, histories <= 24 ops',
                  'c01_txinputs / c01_feeacc: coin values that no validated chain can contain are injected directly into a coins view; '
                  'values are clamped so the implementation\'s int64 running input sum cannot overflow before its range check (precondition: coins come from validated outputs)'],
- 'stages': [gen('vh_c01', 'c01_supply', 480, 7000, min_cases_quick=150,
+ 'stages': [gen('vh_c01', 'c01_supply', 400, 6000, min_cases_quick=130,
                 floors={'has-rejected-fault': 0.4, 'fee-tx-on-active-chain': 0.5, 'reorg': 0.12, 'crossed-halving': 0.1, 'overtake': 0.1},
                 rule='supply histories; non-trivial = >=1 rejected value-rule fault + >=1 fee-paying tx on the active chain + >=1 reorg'),
             gen('vh_c01', 'c01_feeacc', 200, 3000, min_cases_quick=100,
